@@ -242,16 +242,75 @@ def tz_cases():
     return st.tuples(dt.map(lambda d: ("l", [("s", d)])), st.just({}), st.just(False))
 
 
+def shared_scalar_cases():
+    """One date / datetime object used as a value AND as a mapping key (the representer anchors it, so the key is an alias),
+    with scalar, flow and block values after the alias key."""
+    d = st.one_of(gv.dates(), gv.datetimes())
+
+    def mk(t):
+        v, shape = t
+        leaf = ("s", v)
+        after = [("l", [("s", "notes"), ("s", 1)]), ("d", [(("s", "k"), ("s", "v"))]), ("s", "plain"), ("l", []), ("s", None)][shape % 5]
+        return [("d", [(("s", "released"), leaf), (leaf, after)]),
+                ("l", [leaf, ("d", [(leaf, after), (("s", "z"), leaf)])]),
+                ("d", [(("s", "a"), ("l", [leaf])), (leaf, after)])][shape % 3]
+    return st.tuples(st.tuples(d, st.integers(0, 14)).map(mk), gv.dump_options(), st.booleans())
+
+
+def stream_of_temporaries_cases():
+    return st.tuples(st.lists(gv.blueprints(max_leaves=6), min_size=3, max_size=8), st.sampled_from([{}, {"default_flow_style": True}, {"explicit_start": True}]))
+
+
+def eval_temporaries(case):
+    """safe_dump_all fed by a generator whose documents are built on demand and dropped at once (object ids are reused):
+    every document must still round-trip."""
+    import yaml
+    bps, opts = case
+    failures = []
+    evals = 0
+    expected = [gv.build(bp)[0] for bp in bps]
+    for dname, D in dumpers():
+        evals += 1
+        try:
+            text = yaml.dump_all((gv.build(bp)[0] for bp in bps), Dumper=D, **opts)
+        except RecursionError:
+            raise
+        except Exception as e:
+            failures.append(Failure("dump_all-generator-raised:%s:%s" % (dname, exc_key(e)), exc_msg(e)))
+            continue
+        for lname, L in loaders():
+            evals += 1
+            try:
+                back = list(yaml.load_all(text, Loader=L))
+            except Exception as e:
+                failures.append(Failure("load-rejects-dump_all-output:%s>%s:%s" % (dname, lname, exc_key(e)), "%s\ntext=%r" % (exc_msg(e), text[:300])))
+                continue
+            if len(back) != len(expected):
+                failures.append(Failure("temporaries:document-count:%s>%s" % (dname, lname), "%d != %d" % (len(back), len(expected))))
+                continue
+            for i, (a, b) in enumerate(zip(expected, back)):
+                diff = bisimilar(a, b, key_order=False)
+                if diff:
+                    failures.append(Failure("temporaries:document-differs:%s>%s" % (dname, lname), "document %d: %s\ntext=%r" % (i, diff, text[:300])))
+                    break
+    return Eval(failures, ["stream-of-temporaries"], nontrivial=True, ident=repr(case), evals=evals,
+                sample={"documents": len(bps), "options": repr(opts)})
+
+
 def arms(tier):
     return [
         Arm("value", eval_value, value_cases, quick=12000, thorough=600000),
         Arm("scalar", eval_scalar, scalar_cases, quick=20000, thorough=900000),
         Arm("tz", eval_value, tz_cases, quick=400, thorough=20000),
+        Arm("shared-scalar-key", eval_value, shared_scalar_cases, quick=1500, thorough=50000),
+        Arm("temporaries", eval_temporaries, stream_of_temporaries_cases, quick=800, thorough=30000),
     ]
 
 
 def known_class(arm, case, key):
-    if arm in ("value", "tz"):
+    if arm == "temporaries":
+        return None
+    if arm in ("value", "tz", "shared-scalar-key"):
         bp, opts, _ = case
         obj, _info = gv.build(bp)
     else:
